@@ -180,20 +180,32 @@ func (m *MessageStream) inbound() {
 // Parse incoming message
 func (m *MessageStream) parse() {
 	errMessage := "received: %v and encountered error: %v"
+	handle := func(b *bytes.Buffer) {
+		msg, err := m.parser.Parse(b.Bytes())
+		// Log all message parsing errors.
+		if err != nil {
+			log.Errorf(errMessage, b.Bytes(), err)
+		}
+
+		m.Inbound <- msg
+		b.Reset()
+		m.pool.Empty <- b
+	}
 	for {
 		select {
 		case b := <-m.pool.Full:
-			msg, err := m.parser.Parse(b.Bytes())
-			// Log all message parsing errors.
-			if err != nil {
-				log.Errorf(errMessage, b.Bytes(), err)
-			}
-
-			m.Inbound <- msg
-			b.Reset()
-			m.pool.Empty <- b
+			handle(b)
 		case <-m.parserShutdown:
-			return
+			// Frames that were received completely before the shutdown are
+			// still delivered: drain the queue instead of dropping them.
+			for {
+				select {
+				case b := <-m.pool.Full:
+					handle(b)
+				default:
+					return
+				}
+			}
 		}
 	}
 }
